@@ -20,6 +20,7 @@
  */
 #include "vsess.h"
 #include <pthread.h>
+#include <stdarg.h>
 #include <setjmp.h>
 #include <signal.h>
 #include <sys/wait.h>
@@ -30,10 +31,12 @@
 #define FDBASE 200
 #define LISTEN_FD 190      /* read end of a pipe standing in for the listening socket */
 #define LISTEN_WR 191
+#define HTTP_FD 192        /* stand-in for the HTTP listening socket (pipe) */
+#define HTTP_WR 193
 #define MAXF 16
 
 typedef struct {
-  rfbClientPtr cl; int used, freed, memfreed, nnew, ngone, nclose, sfd, pfd, peer_open, nwr, appfd; vs_buf rx;
+  rfbClientPtr cl; int used, freed, memfreed, nnew, ngone, nclose, sfd, pfd, peer_open, nwr, appfd, http; vs_buf rx;
 } conn_t;
 
 static conn_t C[MAXC];
@@ -50,8 +53,11 @@ static jmp_buf hang_jmp;
 static int in_lib;
 static int lib_fds[64], nlib_fds;
 /* connections waiting on the listening descriptor: decision of newClientHook, bytes already sent, peer closed */
-typedef struct { int decision; int closed; int npre; unsigned char pre[64]; } pend_t;
+typedef struct { int decision; int closed; int npre; unsigned char pre[1024]; } pend_t;
 static pend_t pend[MAXC]; static int npend, pend_head;
+static pend_t hpend[MAXC]; static int nhpend, hpend_head;     /* peers waiting on the HTTP listening descriptor */
+static int g_setfl, setfl_fail[MAXF], nsetfl_fail;           /* fcntl(F_SETFL) calls of the library on connection descriptors */
+static int g_inetd_k = -1;
 static int g_devnull = -1, g_lost;
 
 ssize_t __real_read(int, void *, size_t);
@@ -61,6 +67,8 @@ int __real_select(int, fd_set *, fd_set *, fd_set *, struct timeval *);
 int __real_close(int);
 int __real_accept(int, struct sockaddr *, socklen_t *);
 int __real_open(const char *, int, ...);
+int __real_fcntl(int, int, ...);
+int __real_fcntl64(int, int, ...);
 int __real_pthread_mutex_lock(pthread_mutex_t *);
 int __real_pthread_mutex_unlock(pthread_mutex_t *);
 int __real_pthread_mutex_destroy(pthread_mutex_t *);
@@ -182,7 +190,38 @@ int __wrap_accept(int fd, struct sockaddr *a, socklen_t *l) {
     next_decision = p->decision;
     return C[k].sfd;
   }
+  if (in_lib && fd == HTTP_FD) {
+    char b; int k; pend_t *p;
+    if (hpend_head >= nhpend) { errno = EAGAIN; return -1; }
+    __real_read(HTTP_FD, &b, 1);
+    p = &hpend[hpend_head++];
+    k = make_conn(p->closed, p->pre, p->npre);
+    if (k < 0) { errno = EMFILE; return -1; }
+    C[k].http = 1 + p->decision;          /* decision of newClientHook if it is handed over to the RFB server */
+    return C[k].sfd;
+  }
   return __real_accept(fd, a, l);
+}
+
+/* fcntl(F_SETFL) on a connection descriptor (rfbSetNonBlocking): the script can make the n-th one fail */
+static int setfl_hook(int fd, int cmd) {
+  if (in_lib && cmd == F_SETFL && conn_of_sfd(fd) >= 0) {
+    int idx = g_setfl++, i;
+    for (i = 0; i < nsetfl_fail; i++) if (setfl_fail[i] == idx) { errno = EINVAL; return 1; }
+  }
+  return 0;
+}
+int __wrap_fcntl(int fd, int cmd, ...) {
+  va_list ap; long arg;
+  va_start(ap, cmd); arg = va_arg(ap, long); va_end(ap);
+  if (setfl_hook(fd, cmd)) return -1;
+  return __real_fcntl(fd, cmd, arg);
+}
+int __wrap_fcntl64(int fd, int cmd, ...) {
+  va_list ap; long arg;
+  va_start(ap, cmd); arg = va_arg(ap, long); va_end(ap);
+  if (setfl_hook(fd, cmd)) return -1;
+  return __real_fcntl64(fd, cmd, arg);
 }
 
 int __wrap_open(const char *path, int flags, int mode) {
@@ -237,7 +276,9 @@ static void gone_hook(rfbClientPtr cl) {
   }
 }
 static enum rfbNewClientAction new_hook(rfbClientPtr cl) {
-  int k = nconn - 1;      /* the connection being accepted */
+  int k = conn_of_sfd(cl->sock);      /* the connection being accepted (or handed over by the HTTP server) */
+  if (k < 0) k = nconn - 1;
+  if (C[k].http) next_decision = C[k].http - 1;
   C[k].cl = cl; C[k].nnew++; ev("N", k);
   cl->clientGoneHook = gone_hook;
   if (next_decision == 'h') return RFB_CLIENT_ON_HOLD;
@@ -312,7 +353,9 @@ static void observe(const char *op) {
   } else printf(" ref=- max=- ptr=- sc=-");
   for (k = 0; k < nconn; k++) {
     conn_t *c = &C[k];
-    if (c->freed || !c->cl) {
+    if (c->http && !c->cl && !c->freed && !c->nclose) {
+      printf(" | %d:http,n%d,g%d,x%d,w%d,fd%d", k, c->nnew, c->ngone, c->nclose, c->nwr, sock_open(c));    /* waiting as httpSock */
+    } else if (c->freed || !c->cl) {
       printf(" | %d:freed,n%d,g%d,x%d,w%d,fd%d", k, c->nnew, c->ngone, c->nclose, c->nwr, sock_open(c));
     } else if (cleaned) {
       printf(" | %d:lost,n%d,g%d,x%d,w%d,fd%d", k, c->nnew, c->ngone, c->nclose, c->nwr, sock_open(c));
@@ -338,7 +381,7 @@ static void observe(const char *op) {
   printf("\n");
 }
 
-static void new_screen(int w, int h, int auth, int always, int never, int dontdisc, int xvp, int ft) {
+static void new_screen(int w, int h, int auth, int always, int never, int dontdisc, int xvp, int ft, int http) {
   int argc = 0; static char *pwlist[] = {"x", NULL};
   S = rfbGetScreen(&argc, NULL, w, h, 8, 3, 4);
   S->frameBuffer = (char *)calloc((size_t)w * h, 4);
@@ -355,6 +398,12 @@ static void new_screen(int w, int h, int auth, int always, int never, int dontdi
   { int pp[2]; pipe(pp); dup2(pp[0], LISTEN_FD); dup2(pp[1], LISTEN_WR); __real_close(pp[0]); __real_close(pp[1]);
     fcntl(LISTEN_FD, F_SETFL, fcntl(LISTEN_FD, F_GETFL) | O_NONBLOCK);
     S->listenSock = LISTEN_FD; FD_SET(LISTEN_FD, &S->allFds); if (LISTEN_FD > S->maxFd) S->maxFd = LISTEN_FD; }
+  if (http) {    /* HTTP server with proxy hand-over, listening on a stand-in descriptor */
+    int pp[2]; pipe(pp); dup2(pp[0], HTTP_FD); dup2(pp[1], HTTP_WR); __real_close(pp[0]); __real_close(pp[1]);
+    fcntl(HTTP_FD, F_SETFL, fcntl(HTTP_FD, F_GETFL) | O_NONBLOCK);
+    S->httpDir = "/nonexistent-verif-httpdir"; S->httpInitDone = TRUE; S->httpEnableProxyConnect = TRUE;
+    S->httpListenSock = HTTP_FD; S->httpPort = 5800; S->port = 5900;
+  }
   if (g_devnull < 0) g_devnull = __real_open("/dev/null", O_RDONLY, 0);
   cfg_w = w; cfg_h = h; cfg_ft = ft;
 }
@@ -369,7 +418,9 @@ static void reset_case(void) {
   for (i = 0; i < nlib_fds; i++) if (lib_fds[i] >= 0 && fd_is_open(lib_fds[i])) __real_close(lib_fds[i]);
   if (fd_is_open(LISTEN_FD)) __real_close(LISTEN_FD);
   if (fd_is_open(LISTEN_WR)) __real_close(LISTEN_WR);
-  npend = 0; pend_head = 0;
+  if (fd_is_open(HTTP_FD)) __real_close(HTTP_FD);
+  if (fd_is_open(HTTP_WR)) __real_close(HTTP_WR);
+  npend = 0; pend_head = 0; nhpend = 0; hpend_head = 0; g_setfl = 0; nsetfl_fail = 0; g_inetd_k = -1;
   memset(C, 0, sizeof C); memset(fault_hit, 0, sizeof fault_hit);
   nconn = 0; S = NULL; cleaned = 0; hung = 0; g_ioc = 0; g_bad = 0; g_busy = 0; nfault = 0; force_to_fd = -1;
   evlog[0] = 0; nheld = 0; nlib_fds = 0;
@@ -384,13 +435,13 @@ static void do_op(char *line) {
   again_fd = -1; force_to_fd = -1;
   if (hung && strcmp(op, "end") != 0) { observe(op); return; }
   if (!strcmp(op, "config")) {
-    int w = 8, h = 8, auth = 0, al = 0, ne = 0, dd = 0, xv = 0, ft = 0;
-    sscanf(line, "config %d %d %d %d %d %d %d %d", &w, &h, &auth, &al, &ne, &dd, &xv, &ft);
-    new_screen(w, h, auth, al, ne, dd, xv, ft);
+    int w = 8, h = 8, auth = 0, al = 0, ne = 0, dd = 0, xv = 0, ft = 0, http = 0;
+    sscanf(line, "config %d %d %d %d %d %d %d %d %d", &w, &h, &auth, &al, &ne, &dd, &xv, &ft, &http);
+    new_screen(w, h, auth, al, ne, dd, xv, ft, http);
   } else if (!S || cleaned) {
     if (strcmp(op, "end") != 0) { observe(op); return; }
   } else if (!strcmp(op, "accept")) {
-    conn_t *c; rfbClientPtr cl; static unsigned char b[64]; int n = 0, closed = !strcmp(a2, "closed");
+    conn_t *c; rfbClientPtr cl; static unsigned char b[8192]; int n = 0, closed = !strcmp(a2, "closed");
     if (!closed && a2[0]) n = unhex(a2, b, sizeof b);
     k = make_conn(closed, b, n);
     if (k < 0) { observe("accept-overflow"); return; }
@@ -404,6 +455,28 @@ static void do_op(char *line) {
       p->decision = a1[0]; p->closed = !strcmp(a2, "closed");
       p->npre = (!p->closed && a2[0]) ? unhex(a2, p->pre, sizeof p->pre) : 0;
       __real_write(LISTEN_WR, "c", 1);
+    }
+  } else if (!strcmp(op, "haccept")) {
+    /* a peer connects to the HTTP port; a2 = everything it sends (request and what follows) */
+    if (nhpend < MAXC && fd_is_open(HTTP_WR)) {
+      pend_t *p = &hpend[nhpend++];
+      p->decision = a1[0]; p->closed = !strcmp(a2, "closed");
+      p->npre = (!p->closed && a2[0]) ? unhex(a2, p->pre, sizeof p->pre) : 0;
+      __real_write(HTTP_WR, "c", 1);
+    }
+  } else if (!strcmp(op, "setflfail")) {
+    if (nsetfl_fail < MAXF) setfl_fail[nsetfl_fail++] = atoi(a1);
+  } else if (!strcmp(op, "inetd")) {
+    /* the application was started by inetd: the connection is screen->inetdSock; rfbInitSockets + first
+       rfbProcessEvents turn it into a client (a1 = decision of newClientHook, a2 = bytes already sent) */
+    static unsigned char b[1024]; int n = 0, closed = !strcmp(a2, "closed");
+    if (!closed && a2[0]) n = unhex(a2, b, sizeof b);
+    k = make_conn(closed, b, n);
+    if (k >= 0) {
+      next_decision = a1[0]; g_inetd_k = k; C[k].http = 1 + a1[0];   /* printed as waiting until it becomes a client */
+      S->listenSock = -1;                                       /* an inetd server does not listen */
+      S->inetdSock = C[k].sfd; S->inetdInitDone = FALSE;
+      FD_ZERO(&S->allFds); FD_SET(C[k].sfd, &S->allFds); S->maxFd = C[k].sfd;   /* what rfbInitSockets does for inetdSock */
     }
   } else if (!strcmp(op, "in")) {
     k = atoi(a1);
